@@ -235,6 +235,14 @@ let string_of_obs_sets (l : obs list) : string =
       if k <> "found" && List.exists (fun u -> let (k', id') = key u in k' <> "found" && id' = id) rest
       then keep rest else t :: keep rest in
   let j sep l = if l = [] then "-" else String.concat sep (List.sort compare l) in
+  (* an address with several IpAdd / IpDel events in one iteration: their order ("seq.<ip>.<a|d>*") *)
+  let seqs = ref [] in
+  List.iter (fun o ->
+      let note a c = let k = string_of_ip a in
+        seqs := (if List.mem_assoc k !seqs then List.map (fun (k', v) -> if k' = k then (k', v ^ c) else (k', v)) !seqs
+                 else !seqs @ [ (k, c) ]) in
+      match o with OIpAdd a -> note a "a" | OIpDel a -> note a "d" | _ -> ()) l;
+  List.iter (fun (k, v) -> if String.length v >= 2 then ev := ("seq." ^ k ^ "." ^ v) :: !ev) !seqs;
   Printf.sprintf "ev=%s tx=%s br=%s" (j "," !ev) (j "&" !tx) (j "," (keep chrono))
 
 let c18_run (rest : string list) : obs list list =
@@ -311,10 +319,35 @@ let run_monitor (id : string) (case : string list) (result : string) : string =
     if List.length its <> List.length steps then "FAIL wrong number of iterations" else
     let parse_it (s : string) (gb : packet list) : obs list =
       match split_on ' ' s with
-      | [ ev; tx; _br ] ->
-        let evs = nlist (after "ev=" ev) (fun e ->
-            if starts_with e "add." then OIpAdd (ip_of_string (String.sub e 4 (String.length e - 4)))
-            else OIpDel (ip_of_string (String.sub e 4 (String.length e - 4)))) in
+      | [ ev; tx; br ] ->
+        let toks = nlist (after "ev=" ev) (fun e -> e) in
+        (* "seq.<ip>.<letters>": the order of the events about one address; the other addresses have one event *)
+        let seqs = List.filter_map (fun e ->
+            if starts_with e "seq." then
+              let body = String.sub e 4 (String.length e - 4) in
+              let i = String.rindex body '.' in
+              Some (String.sub body 0 i, String.sub body (i + 1) (String.length body - i - 1))
+            else None) toks in
+        let single = List.filter_map (fun e ->
+            if starts_with e "seq." then None
+            else
+              let ipstr = String.sub e 4 (String.length e - 4) in
+              if List.mem_assoc ipstr seqs then None
+              else Some (if starts_with e "add." then OIpAdd (ip_of_string ipstr) else OIpDel (ip_of_string ipstr))) toks in
+        let ordered = List.concat_map (fun (ipstr, letters) ->
+            List.init (String.length letters) (fun i ->
+                if letters.[i] = 'a' then OIpAdd (ip_of_string ipstr) else OIpDel (ip_of_string ipstr))) seqs in
+        let evs = single @ ordered in
+        (* "resolved/ty/inst/host/port/ip@id+id_ip@id": the addresses reported with the interfaces they were learned on *)
+        let res = List.filter_map (fun t ->
+            match split_on '/' t with
+            | [ "resolved"; ty; inst; host; port; addrs ] ->
+              let al = List.concat_map (fun a ->
+                  match split_on '@' a with
+                  | [ ipstr; ids ] -> List.map (fun i -> (ip_of_string ipstr, n_of_dec i)) (split_on '+' ids)
+                  | _ -> []) (if addrs = "" then [] else split_on '_' addrs) in
+              Some (OResolved (bytes_of_hex ty, bytes_of_hex inst, bytes_of_hex host, n_of_dec port, al))
+            | _ -> None) (nlist (after "br=" br) (fun e -> e)) in
         let txs = if after "tx=" tx = "-" then [] else split_on '&' (after "tx=" tx) in
         let pks = List.filter_map (fun t ->
             if find_sub t ";if=*;" >= 0 then None
@@ -322,7 +355,7 @@ let run_monitor (id : string) (case : string list) (result : string) : string =
               let t' = (let i = find_sub t ";if=?;" in
                         if i < 0 then t else String.sub t 0 i ^ ";if=0;" ^ String.sub t (i + 6) (String.length t - i - 6)) in
               match reaction_of_string t' with Some p -> Some (OSent p) | None -> None) txs in
-        evs @ pks @ List.map (fun p -> OSent p) gb
+        evs @ pks @ List.map (fun p -> OSent p) gb @ res
       | _ -> failwith "bad iteration" in
     let hist = List.map2 (fun (st, gb) s -> (st, parse_it s gb)) steps its in
     ignore t0;
@@ -368,7 +401,21 @@ let run_monitor (id : string) (case : string list) (result : string) : string =
                       ^ string_of_dest p.p_dest ^ "-if" ^ dec_n p.p_if
                     | OIpAdd a -> "ipadd-" ^ string_of_ip a
                     | OIpDel a -> "ipdel-" ^ string_of_ip a
+                    | OResolved (_, inst, _, _, addrs) ->
+                      (* an address learned on an interface all of whose entries are disabled: the same excuse
+                         as for packets when the daemon still holds an entry it was told to drop while absent *)
+                      let deadl = List.filter (fun (_, idx) -> not (intf_live !seen !cur states idx)) addrs in
+                      let excused = List.for_all (fun (_, idx) ->
+                          List.exists (fun e -> e.i_index = idx &&
+                                                (match last_matching final !pushed_os e with
+                                                 | Some ((_, false), o) -> not (mem_iface e o)
+                                                 | _ -> false)) !seen) deadl in
+                      (if excused then "selection-while-absent-" else "")
+                      ^ "resolved-" ^ hex_of_bytes inst ^ "-reports-"
+                      ^ String.concat "+" (List.map (fun (a, idx) -> string_of_ip a ^ "@if" ^ dec_n idx) deadl)
                     | _ -> "other")) :: !bad) os;
+          if not (order_ok !cur st.st_calls os) then
+            bad := (k, "ipdel-after-ipadd-of-an-address-the-host-has") :: !bad;
           sels := final) hist;
       let bad = List.rev !bad in
       let cls w = if starts_with w "selection-while-absent-" then "selection-while-absent" else "" in
